@@ -486,6 +486,13 @@ func cmdCheck(args []string) int {
 		}
 		got, _, err := runReplay(path)
 		replayed++
+		if err == nil && !replayMatches(rc.Expect, got) && f.Kind == "reslice-beyond-length" {
+			// the function adapts to the capacity instead of panicking: confirm through the harness's own
+			// inside-the-view assertion with the original capacity
+			rc.Clamp, rc.Expect = false, "ASSERT::inside"
+			path, _ = writeReplay(rc, caseN)
+			got, _, err = runReplay(path)
+		}
 		if err == nil && replayMatches(rc.Expect, got) {
 			violations++
 			entry["status"] = "violation (replayed natively: " + got + ")"
